@@ -4,11 +4,27 @@
 //! * `VERIF_CRASH_AT=<n>:before|after` — abort the process at the n-th durable write
 //!   (1-based), before or after it is handed to RocksDB.
 //! * `VERIF_COMMIT_LOG=<path>` — append one line `<n> <kind>` per durable write.
+//! * `fail_write_at(n)` — the durable write with sequence number `n` is not handed to RocksDB and
+//!   returns an injected I/O error instead (one shot).
 use std::io::Write;
 use std::sync::OnceLock;
 use std::sync::atomic::{AtomicU64, Ordering};
 
 static COUNTER: AtomicU64 = AtomicU64::new(0);
+static FAIL_AT: AtomicU64 = AtomicU64::new(0);
+
+/// Arm a one-shot injected failure of the durable write with sequence number `n` (0 disarms).
+pub fn fail_write_at(n: u64) {
+    FAIL_AT.store(n, Ordering::SeqCst);
+}
+
+/// Whether the durable write `n` has to fail (consumes the armed failure).
+pub fn should_fail(n: u64) -> bool {
+    n != 0
+        && FAIL_AT
+            .compare_exchange(n, 0, Ordering::SeqCst, Ordering::SeqCst)
+            .is_ok()
+}
 
 struct Plan {
     crash_at: Option<(u64, bool)>,
